@@ -11,12 +11,13 @@
                              (`spotFinish` of the caller, `finishCmd` of the worker) do not touch it;
     * `keysAdded`            at `store.put` (`.storePut`), the action that inserts the entry;
     * `keysDeleted`          at `store.remove` — of a Delete command (`.delStore`), of an eviction by the worker
-                             (`.evStore`) or by the sweeper (`SPc.store`) (`applyEvict`) — the action that removes the entry;
+                             (`.evStore`, `applyEvict`) or by the sweeper (`SPc.store`, `applyEvictId`: only if the key is still stored
+                             under the evicted id) — the action that removes the entry;
     * `weightAdded`          at `wu.add` (`.add`, together with `used += w`) and at `kw.update` (`.update`, together
                              with `used += delta`; a decrease is added as its two's complement);
     * `weightRemoved`        at `wu.sub` of a Delete command (`.delSub`, together with `used -= w`), but for an EVICTION
                              one action LATER than `used -= w`: `wu.sub` (`.evSub` / `SPc.sub`) subtracts, the following
-                             `store.remove` (`.evStore` / `SPc.store`, `applyEvict`) counts the weight as removed.
+                             `store.remove` (`.evStore` / `SPc.store`, `applyEvict` / `applyEvictId`) counts the weight as removed.
 
   So three of the four identities need NO correction for work in flight; the weight identity needs one:
 
@@ -193,6 +194,36 @@ theorem keys_applyEvict {g : State} (id k : Nat) (w : Int)
     have : g.store.contains k = true := by simp [AMap.contains, hc]
     have hl := AMap.length_del_present hn hc
     rw [this]; simp only [if_true]; omega
+
+/-- the ticker's delete hook, in numbers: one key less if the key is stored under the evicted id, the weight counted
+    as removed in any case -/
+theorem applyEvictId_statsB (g : State) (id k : Nat) (w : Int) :
+    (applyEvictId g (id, k, w)).stats =
+      { g.stats with
+        keysDeleted := g.stats.keysDeleted + (if (g.store.get? k).map (·.id) = some id then 1 else 0),
+        weightRemoved := (g.stats.weightRemoved + w.toNat) % u64Mod } := by
+  rw [Cached.applyEvictId_closed]
+
+theorem applyEvictId_storeB (g : State) (id k : Nat) (w : Int) :
+    (applyEvictId g (id, k, w)).store =
+      if (g.store.get? k).map (·.id) = some id then g.store.del k else g.store := by
+  rw [Cached.applyEvictId_closed]
+
+theorem keys_applyEvictId {g : State} (id k : Nat) (w : Int)
+    (hk : g.stats.keysAdded = g.stats.keysDeleted + g.store.length) (hn : AMap.NoDup g.store) :
+    (applyEvictId g (id, k, w)).stats.keysAdded =
+      (applyEvictId g (id, k, w)).stats.keysDeleted + (applyEvictId g (id, k, w)).store.length := by
+  rw [applyEvictId_statsB, applyEvictId_storeB]
+  simp only []
+  by_cases hm : (g.store.get? k).map (·.id) = some id
+  · simp only [hm, if_true]
+    cases hc : g.store.get? k with
+    | none => rw [hc] at hm; cases hm
+    | some e =>
+      have hl := AMap.length_del_present hn hc
+      omega
+  · simp only [hm, if_false]
+    omega
 
 theorem get?_del_none {m : AMap Nat Entry} {k : Nat} (h : m.get? k = none) (a : Nat) : (m.del a).get? k = none := by
   rw [AMap.get?_del]; split <;> simp [h]
@@ -424,21 +455,23 @@ theorem statB_sweeperAct {b b' : BState} {gh : GhostB} {v : Option Nat} (hb : BI
     simp only [hsw, SPc.heldW] at h4 ⊢
     simp only [u64Mod] at h4 ⊢
     omega
-  case refine_1.store now shard rest id wk hsw _ => simpa [applyEvict_stats] using h1
-  case refine_2.store now shard rest id wk hsw _ => simpa [applyEvict_stats] using h2
+  case refine_1.store now shard rest id wk hsw _ => simpa [applyEvictId_statsB] using h1
+  case refine_2.store now shard rest id wk hsw _ => simpa [applyEvictId_statsB] using h2
   case refine_3.store now shard rest id wk hsw _ =>
-    simp only [sweepNext_g]; exact keys_applyEvict id wk.key wk.weight hk1 hk2
+    simp only [sweepNext_g]; exact keys_applyEvictId id wk.key wk.weight hk1 hk2
   case refine_4.store now shard rest id wk hsw _ =>
-    simp only [sweepNext_g]; rw [applyEvict_store]; exact AMap.noDup_del hk2 _
+    simp only [sweepNext_g]; exact Cached.applyEvictId_noDup _ _ hk2
   case refine_5.store now shard rest id wk hsw _ =>
     simp only [sweepNext_g, sweepNext_w]
     intro k hk'
-    rw [applyEvict_store]
-    exact get?_del_none (hk3 k hk') _
+    rw [applyEvictId_storeB]
+    split
+    · exact get?_del_none (hk3 k hk') _
+    · exact hk3 k hk'
   case refine_6.store now shard rest id wk hsw _ =>
     have hpos := hvic wk (by simp [hsw, SPc.victim?])
     simp only [sweepNext_g, sweepNext_w, sweepNext_heldW]
-    simp only [hsw, SPc.heldW, applyEvict_stats, applyEvict_adm] at h4 ⊢
+    simp only [hsw, SPc.heldW, applyEvictId_statsB, applyEvictId_adm] at h4 ⊢
     simp only [u64Mod] at h4 ⊢
     omega
   all_goals simp only [sweepNext_g, sweepNext_w, sweepNext_heldW]
